@@ -255,7 +255,8 @@ def job_layouts(ctx, k):
         ctx.close(np.asarray(D), Rm, tol, 'DCM(matrix in another layout): own values = the matrix', key)
         ctx.close(np.asarray(D.A), Rm, tol, 'DCM(matrix in another layout): .A = the matrix', key)
         ctx.close(np.asarray(D @ v), Rm @ v, 10 * tol, 'DCM(matrix in another layout) @ v', key)
-        ctx.close(np.asarray(D.to_quaternion()), rq.qunit(A.MENU[k]) * np.sign(A.MENU[k][0]), 10 * tol, 'DCM(matrix in another layout).to_quaternion', key)
+        qd = np.asarray(D.to_quaternion(), float)
+        ctx.expect(qd.shape == (4,) and rq.qangle(rq.qunit(qd), rq.qunit(A.MENU[k])) <= 1e-6, 'DCM(matrix in another layout).to_quaternion', key, qd, rq.qunit(A.MENU[k]), 1e-6)
         ctx.cls('layout'); ctx.seen(('layout', 'DCM', name))
     for name, X in (('int', Rint), ('int F', np.asfortranarray(Rint)), ('int list', Rint.tolist())):
         D = DCM(X)
